@@ -63,7 +63,12 @@ func main() {
 	})
 }
 
-type decl struct{ Verb, Path, Name string }
+type decl struct {
+	Verb, Path, Name string
+	// Dir: the handler package of this method below biz/handler (api.handler_path), used with
+	// the handler-by-method layout
+	Dir string
+}
 
 type opts struct {
 	Sort, Snake, ByMethod bool
@@ -128,7 +133,7 @@ func genSet(r *mon.Rand) rset {
 				name = sg
 			}
 		}
-		s.Decls = append(s.Decls, decl{v, p, name})
+		s.Decls = append(s.Decls, decl{v, p, name, ""})
 		if r.Chance(8) && v != "Any" {
 			// one IDL function with two HTTP annotations: the same handler on a second verb
 			// (api.get="/item", api.post="/item") or on a second path
@@ -139,8 +144,22 @@ func genSet(r *mon.Rand) rset {
 			if !(seen[v2+" "+p2] || seen["Any "+p2]) {
 				seen[v2+" "+p2] = true
 				paths = append(paths, p2)
-				s.Decls = append(s.Decls, decl{v2, p2, name})
+				s.Decls = append(s.Decls, decl{v2, p2, name, ""})
 			}
+		}
+	}
+	if s.Opt.ByMethod && r.Bool() {
+		// handler packages of the same base name (v1/user, v2/user), several routes in each
+		for i := range s.Decls {
+			s.Decls[i].Dir = []string{"v1/user", "v2/user", "v2/user"}[r.Intn(3)]
+		}
+		// (one handler name, one package: the same IDL function keeps its package)
+		byName := map[string]string{}
+		for i := range s.Decls {
+			if d, ok := byName[s.Decls[i].Name]; ok {
+				s.Decls[i].Dir = d
+			}
+			byName[s.Decls[i].Name] = s.Decls[i].Dir
 		}
 	}
 	if n >= 2 && r.Chance(3) {
@@ -150,15 +169,15 @@ func genSet(r *mon.Rand) rset {
 		// update flow around names of which one is the tail of the other after mangling:
 		// the first run has a group for the long one, the second adds a group for the short one
 		pair := [][2]string{{"a_b", "b"}, {"a-b", "b"}, {"user_id", "id"}, {"user-id", "id"}, {"user_id", ":id"}, {"x.y", "y"}, {"a_b", "B"}}[r.Intn(7)]
-		first := []decl{{r.Str("GET", "POST"), "/" + pair[0] + "/" + segs[r.Intn(len(segs))], "P0"}}
-		second := []decl{{r.Str("GET", "PUT"), "/" + pair[1] + "/" + segs[r.Intn(len(segs))], "P1"}}
+		first := []decl{{r.Str("GET", "POST"), "/" + pair[0] + "/" + segs[r.Intn(len(segs))], "P0", ""}}
+		second := []decl{{r.Str("GET", "PUT"), "/" + pair[1] + "/" + segs[r.Intn(len(segs))], "P1", ""}}
 		if r.Bool() { // nested one level down
 			first[0].Path = "/v1" + first[0].Path
 			second[0].Path = "/v1" + second[0].Path
 		}
 		s.Decls = append(first, second...)
 		for k := r.Intn(3); k > 0; k-- {
-			s.Decls = append(s.Decls, decl{"DELETE", fmt.Sprintf("/extra%d/%s", k, segs[r.Intn(len(segs))]), fmt.Sprintf("E%d", k)})
+			s.Decls = append(s.Decls, decl{"DELETE", fmt.Sprintf("/extra%d/%s", k, segs[r.Intn(len(segs))]), fmt.Sprintf("E%d", k), ""})
 		}
 		s.Opt.Update = 1
 	}
@@ -223,7 +242,7 @@ func genOnce(out string, k int, decls []decl, o opts) (genErr string, parseErr s
 	}
 	svc := &generator.Service{Name: "Svc"}
 	for _, d := range decls {
-		svc.Methods = append(svc.Methods, &generator.HttpMethod{Name: d.Name, HTTPMethod: d.Verb, Path: d.Path, Serializer: "JSON", RequestTypeName: "api.Req", ReturnTypeName: "api.Resp"})
+		svc.Methods = append(svc.Methods, &generator.HttpMethod{Name: d.Name, HTTPMethod: d.Verb, Path: d.Path, OutputDir: d.Dir, Serializer: "JSON", RequestTypeName: "api.Req", ReturnTypeName: "api.Resp"})
 	}
 	pkg := &generator.HttpPackage{IdlName: "api.thrift", Package: "api", Services: []*generator.Service{svc}}
 	if err := g.Generate(pkg); err != nil {
@@ -317,7 +336,12 @@ func generate(dir string, k int, s rset) (genErr string, parseErr string) {
 	}
 	for _, im := range imps {
 		var sb strings.Builder
-		fmt.Fprintf(&sb, "package %s\n\nimport (\n\t\"context\"\n\n\t\"github.com/cloudwego/hertz/pkg/app\"\n)\n\nfunc mk(name string) app.HandlerFunc {\n\treturn func(c context.Context, ctx *app.RequestContext) { ctx.Response.Header.Add(\"X-Trace\", \"H:\"+name) }\n}\n\nvar (\n", filepath.Base(im[2]))
+		// (the stub says which package it stands in: routes must reach the handler of their own package)
+		rel := ""
+		if i := strings.Index(im[2], "biz/handler/"); i >= 0 {
+			rel = im[2][i+len("biz/handler/"):]
+		}
+		fmt.Fprintf(&sb, "package %s\n\nimport (\n\t\"context\"\n\n\t\"github.com/cloudwego/hertz/pkg/app\"\n)\n\nfunc mk(name string) app.HandlerFunc {\n\treturn func(c context.Context, ctx *app.RequestContext) { ctx.Response.Header.Add(\"X-Trace\", \"H:\"+name+\"@%s\") }\n}\n\nvar (\n", filepath.Base(im[2]), rel)
 		done := map[string]bool{}
 		for _, d := range s.Decls {
 			if done[d.Name] {
@@ -494,7 +518,7 @@ func judge(c *mon.Case, w *mon.W, s rset, so *setOut) {
 	descr := func() string {
 		var ds []string
 		for _, d := range s.Decls {
-			ds = append(ds, fmt.Sprintf("%s %s %s", d.Verb, d.Path, d.Name))
+			ds = append(ds, strings.TrimSpace(fmt.Sprintf("%s %s %s %s", d.Verb, d.Path, d.Name, d.Dir)))
 		}
 		return fmt.Sprintf("options %+v; declarations [%s]", s.Opt, strings.Join(ds, "; "))
 	}
@@ -509,7 +533,8 @@ func judge(c *mon.Case, w *mon.W, s rset, so *setOut) {
 		c.Violate("register-panic", "registering the generated router panics although the declared routes register fine by hand: %s; %s", so.Panic, descr())
 		return
 	}
-	want := map[string]string{} // "VERB path" -> handler name
+	want := map[string]string{}    // "VERB path" -> handler name
+	wantDir := map[string]string{} // ... -> its handler package below biz/handler, if declared
 	for _, d := range s.Decls {
 		vs := []string{d.Verb}
 		if d.Verb == "Any" {
@@ -517,6 +542,7 @@ func judge(c *mon.Case, w *mon.W, s rset, so *setOut) {
 		}
 		for _, v := range vs {
 			want[v+" "+d.Path] = d.Name
+			wantDir[v+" "+d.Path] = d.Dir
 		}
 	}
 	got := map[string]routeOut{}
@@ -563,8 +589,13 @@ func judge(c *mon.Case, w *mon.W, s rset, so *setOut) {
 			return
 		}
 		tr := r.Trace
-		if len(tr) < 3 || tr[len(tr)-1] != "H:"+name {
-			c.Violate("handler-binding", "route %q reaches trace %v, want the handler named %q last (after root, group and route middleware); %s", k, tr, name, descr())
+		last := ""
+		if len(tr) > 0 {
+			last = tr[len(tr)-1]
+		}
+		at := strings.LastIndex(last, "@")
+		if len(tr) < 3 || at < 0 || last[:at] != "H:"+name || (wantDir[k] != "" && last[at+1:] != wantDir[k]) {
+			c.Violate("handler-binding", "route %q reaches trace %v, want the handler named %q (of the handler package %q) last, after root, group and route middleware; %s", k, tr, name, wantDir[k], descr())
 			return
 		}
 		if root == "" {
